@@ -622,6 +622,8 @@ impl MqttSerializer {
                 Ok(p) => p@.len() <= old(buf)@.len() && p@.len() >= 2 && p@ == packet.enc() && framed(p@),
                 Err(e) => true,
             },
+            // the encoder reserves 5 header bytes and right-aligns the fixed header in them
+            (packet.encodable() && old(buf)@.len() >= packet.enc().len() + 3) ==> r is Ok,
     { unimplemented!() }
 }
 
@@ -4733,6 +4735,307 @@ async fn fill_packet_reader<'buf>(
     }
 
     Ok(())
+}
+
+} // verus!
+
+// ======================================================================================
+// 70_operations: src/mqtt_client/session/operations.rs + direct writers of outbound.rs
+// ======================================================================================
+verus! {
+
+#[derive(Copy, Clone)]
+pub enum RetainHandling {
+    Immediately = 0b00,
+    IfSubscriptionDoesNotExist = 0b01,
+    Never = 0b10,
+}
+#[derive(Copy, Clone)]
+pub struct SubscriptionOptions {
+    pub maximum_qos: QoS,
+    pub no_local: bool,
+    pub retain_as_published: bool,
+    pub retain_behavior: RetainHandling,
+}
+#[derive(Copy, Clone)]
+pub struct TopicFilter<'a> {
+    pub topic: Utf8String<'a>,
+    pub options: SubscriptionOptions,
+}
+pub struct Subscribe<'a> {
+    pub packet_id: u16,
+    pub dup: bool,
+    pub properties: Properties<'a>,
+    pub topics: &'a [TopicFilter<'a>],
+}
+pub struct Unsubscribe<'a> {
+    pub packet_id: u16,
+    pub dup: bool,
+    pub properties: Properties<'a>,
+    pub topics: &'a [&'a str],
+}
+pub struct Publication<'a, P> {
+    pub topic: &'a str,
+    pub properties: Properties<'a>,
+    pub qos: QoS,
+    pub payload: P,
+    pub retain: Retain,
+}
+#[derive(Copy, Clone)]
+pub enum PropertyContext {
+    Publish,
+    Subscribe,
+    Unsubscribe,
+    Disconnect,
+    Will,
+}
+
+pub uninterp spec fn enc_subscribe(p: Subscribe) -> Seq<u8>;
+pub uninterp spec fn enc_unsubscribe(p: Unsubscribe) -> Seq<u8>;
+pub uninterp spec fn enc_disconnect(p: Disconnect) -> Seq<u8>;
+impl Encodable for Subscribe<'_> {
+    open spec fn enc(&self) -> Seq<u8> { enc_subscribe(*self) }
+    open spec fn encodable(&self) -> bool { true }
+}
+impl Encodable for Unsubscribe<'_> {
+    open spec fn enc(&self) -> Seq<u8> { enc_unsubscribe(*self) }
+    open spec fn encodable(&self) -> bool { true }
+}
+impl Encodable for Disconnect<'_> {
+    open spec fn enc(&self) -> Seq<u8> { enc_disconnect(*self) }
+    open spec fn encodable(&self) -> bool { true }
+}
+
+#[verifier::external_body]
+pub proof fn axiom_enc_disconnect_success()
+    ensures enc_disconnect(Disconnect { reason_code: None, properties: None }) =~= seq![0xE0u8, 0x00u8]
+{}
+
+/// C19: the property table (Kani leaf, kani/props.rs): every property of the set is legal for the context
+pub uninterp spec fn props_valid(p: Properties, ctx: PropertyContext) -> bool;
+impl<'a> Properties<'a> {
+    #[verifier::external_body]
+    pub const fn from_slice(properties: &'a [Property<'a>]) -> (r: Properties<'a>)
+        ensures r == (Properties { inner: PropertiesData::Slice(properties) })
+    { unimplemented!() }
+    #[verifier::external_body]
+    pub fn valid_for(&'a self, context: PropertyContext) -> (r: bool)
+        ensures r == props_valid(*self, context)
+    { unimplemented!() }
+}
+impl<'a> Disconnect<'a> {
+fn success() -> (r: Self)
+    ensures
+        r.reason_code is None && r.properties is None,
+{
+        Self {
+            reason_code: None,
+            properties: None,
+        }
+    }
+fn with_reason(reason_code: ReasonCode) -> (r: Self)
+    ensures
+        r.reason_code == Some(reason_code) && r.properties is None,
+{
+        Self {
+            reason_code: Some(reason_code),
+            properties: None,
+        }
+    }
+fn with_will() -> (r: Self)
+    ensures
+        r.reason_code == Some(ReasonCode::DisconnectWithWill) && r.properties is None,
+{
+        Self::with_reason(ReasonCode::DisconnectWithWill)
+    }
+fn with_properties(self, properties: &'a [Property<'a>]) -> (r: Self)
+    ensures
+        r.reason_code == (if self.reason_code is None { Some(ReasonCode::Success) } else { self.reason_code })
+            && r.properties == Some(Properties { inner: PropertiesData::Slice(properties) }),
+{ let mut self__m = self;
+        if self__m.reason_code.is_none() {
+            self__m.reason_code = Some(ReasonCode::Success);
+        }
+        self__m.properties = Some(Properties::from_slice(properties));
+        self__m
+    }
+fn properties(&self) -> (r: Option<&Properties<'a>>)
+    ensures
+        r == (match self.properties { Some(p) => Some(&p), None => None }),
+{
+        self.properties.as_ref()
+    }
+}
+
+async fn write_all(
+    connection: &mut VIo,
+    bytes__0: &[u8],
+) -> (r: Result<(), Error<IoErr>>)
+    ensures
+        r is Ok ==> final(connection).wire@ == old(connection).wire@ + bytes__0@,
+        wire_ext(old(connection).wire@, final(connection).wire@, bytes__0@, 0),
+        r matches Err(e) ==> (e is WriteZero || e is Transport),
+        final(connection).inbound@ == old(connection).inbound@,
+{
+    let ghost mut k: int = 0;
+    proof { assert(old(connection).wire@ =~= old(connection).wire@ + bytes__0@.subrange(0, 0)); assert(bytes__0@ =~= bytes__0@.subrange(0, bytes__0@.len() as int)); }
+
+ let mut bytes = bytes__0;
+    while !bytes.is_empty() 
+        invariant
+            connection.inbound@ == old(connection).inbound@,
+            0 <= k <= bytes__0@.len(),
+            connection.wire@ =~= old(connection).wire@ + bytes__0@.subrange(0, k),
+            bytes@ =~= bytes__0@.subrange(k, bytes__0@.len() as int),
+        decreases bytes@.len()
+{
+        let written = (match (match connection.write(bytes).await { Ok(__v) => Ok(__v), Err(__e) => Err(Error::Transport(__e)) }) { Ok(__v) => __v, Err(__e) => return Err(From::from(__e)) });
+        if written == 0 {
+
+            return Err(Error::WriteZero);
+        }
+        bytes = &bytes[written..];
+    
+        proof {
+            assert(connection.wire@ =~= old(connection).wire@ + bytes__0@.subrange(0, k + written));
+            k = k + written;
+        }
+
+}
+    proof { assert(bytes__0@.subrange(0, k) =~= bytes__0@); }
+
+    Ok(())
+}
+
+
+async fn write_packet<T>(
+    buffer: &mut [u8],
+    connection: &mut VIo,
+    packet: &T,
+) -> (r: Result<(), Error<IoErr>>)
+where
+    T: Encodable,
+    ensures
+        r is Ok ==> final(connection).wire@ == old(connection).wire@ + packet.enc() && framed(packet.enc()),
+        final(connection).wire@ == old(connection).wire@ || wire_ext(old(connection).wire@, final(connection).wire@, packet.enc(), 0),
+        r matches Err(e) ==> (e is WriteZero || e is Transport || e == Error::<IoErr>::Resource(ResourceError::BufferTooSmall) || e is InvalidRequest),
+        r matches Err(e) ==> (e is Resource || e is InvalidRequest) ==> final(connection).wire@ == old(connection).wire@ && final(connection).ops@ == old(connection).ops@,
+        final(connection).inbound@ == old(connection).inbound@,
+{
+    let bytes = (match MqttSerializer::encode(buffer, packet) { Ok(__v) => __v, Err(__e) => return Err(From::from(__e)) });
+    (match write_all(connection, bytes).await { Ok(__v) => __v, Err(__e) => return Err(From::from(__e)) });
+    (match (match connection.flush().await { Ok(__v) => Ok(__v), Err(__e) => Err(Error::Transport(__e)) }) { Ok(__v) => __v, Err(__e) => return Err(From::from(__e)) });
+    Ok(())
+}
+
+/// nothing of the session's own queues is half-way on the wire
+pub open spec fn no_in_progress(o: Outbound) -> bool { step_for(o, true) is None }
+
+/// retained and release lists carry the same packets (ids, arena places) — only send states and the
+/// DUP bit may differ
+pub open spec fn same_inflight(o1: Outbound, o0: Outbound) -> bool {
+    &&& o1.retained@.len() == o0.retained@.len()
+    &&& forall|i: int| 0 <= i < o0.retained@.len() ==> (#[trigger] o1.retained@[i]).packet_id == o0.retained@[i].packet_id
+            && o1.retained@[i].len == o0.retained@[i].len
+    &&& o1.pending_release@.len() == o0.pending_release@.len()
+    &&& forall|i: int| 0 <= i < o0.pending_release@.len() ==> (#[trigger] o1.pending_release@[i]).packet_id == o0.pending_release@[i].packet_id
+            && o1.pending_release@[i].reason == o0.pending_release@[i].reason
+}
+
+impl<'a, 'buf> Connection<'a, 'buf> {
+fn require_retained_slot(&self) -> (r: Result<(), Error<IoErr>>)
+    ensures
+        r == (if cs(*self).data.outbound.retained@.len() == MAX_RETAINED { Err::<(), Error<IoErr>>(Error::Resource(ResourceError::InflightExhausted)) } else { Ok::<(), Error<IoErr>>(()) }),
+{
+        if self.session.data.outbound.retained_full() {
+            return Err(Error::Resource(ResourceError::InflightExhausted));
+        }
+        Ok(())
+    }
+
+async fn disconnect_with(
+        &mut self,
+        disconnect: Disconnect<'_>,
+    ) -> (r: Result<(), Error<IoErr>>)
+    requires
+        conn_inv(*old(self)),
+    ensures
+        !old(self).live ==> r is Ok && final(self).io == old(self).io && *final(self).session == *old(self).session && !final(self).live,
+        (old(self).live && disconnect.properties is Some && !props_valid(disconnect.properties->Some_0, PropertyContext::Disconnect)) ==>
+            r == Err::<(), Error<IoErr>>(Error::InvalidRequest) && final(self).io == old(self).io && *final(self).session == *old(self).session && final(self).live,
+        r matches Err(e) ==> (e is InvalidRequest || e is Resource) ==> final(self).io == old(self).io && *final(self).session == *old(self).session && final(self).live == old(self).live,
+        (old(self).live && !(disconnect.properties is Some && !props_valid(disconnect.properties->Some_0, PropertyContext::Disconnect))
+            && enc_disconnect(disconnect).len() + 3 <= CONTROL_PACKET_LEN
+            && !too_large(cs(*old(self)).runtime.maximum_packet_size, enc_disconnect(disconnect).len() as usize)) ==>
+            !(r matches Err(Error::InvalidRequest)) && !(r matches Err(Error::Resource(_))),
+        (old(self).live && final(self).io.wire@.len() > old(self).io.wire@.len()) ==> !too_large(cs(*old(self)).runtime.maximum_packet_size, enc_disconnect(disconnect).len() as usize),
+        final(self).io.wire@ == old(self).io.wire@ || wire_ext(old(self).io.wire@, final(self).io.wire@, enc_disconnect(disconnect), 0),
+        (old(self).live && r is Ok) ==> final(self).io.wire@ == old(self).io.wire@ + enc_disconnect(disconnect) && framed(enc_disconnect(disconnect)),
+        (old(self).live && !(r matches Err(Error::InvalidRequest)) && !(r matches Err(Error::Resource(_)))) ==> !final(self).live,
+        r matches Err(e) ==> (e is InvalidRequest || e is Resource || e is WriteZero || e is Transport),
+        (old(self).live && !final(self).live) ==> armed(cs(*final(self)).data.outbound, cs(*old(self)).data.outbound),
+        conn_inv(*final(self)),
+{
+        if !self.live {
+            return Ok(());
+        }
+
+        if let Some(properties) = disconnect.properties() { if !properties.valid_for(PropertyContext::Disconnect) {
+            return Err(Error::InvalidRequest);
+        } }
+        let mut buffer = [0u8; CONTROL_PACKET_LEN];
+        let packet = (match MqttSerializer::encode(&mut buffer, &disconnect) { Ok(__v) => __v, Err(__e) => return Err(From::from(__e)) });
+        (match self.session.runtime.require_packet_size(packet.len()) { Ok(__v) => __v, Err(__e) => return Err(From::from(__e)) });
+        let result = match write_all(&mut self.io, packet).await {
+            Ok(()) => (match self.io.flush().await { Ok(__v) => Ok(__v), Err(__e) => Err(Error::Transport(__e)) }),
+            Err(err) => Err(err),
+        };
+
+        self.handle_disconnect();
+        result
+    }
+
+async fn disconnect_with__d7(
+        &mut self,
+        disconnect: Disconnect<'_>,
+    ) -> (r: Result<(), Error<IoErr>>)
+    requires
+        conn_inv(*old(self)),
+    ensures
+        final(self).io.wire@.len() > old(self).io.wire@.len() ==> no_in_progress(cs(*old(self)).data.outbound),
+{
+        if !self.live {
+            return Ok(());
+        }
+
+        if let Some(properties) = disconnect.properties() { if !properties.valid_for(PropertyContext::Disconnect) {
+            return Err(Error::InvalidRequest);
+        } }
+        let mut buffer = [0u8; CONTROL_PACKET_LEN];
+        let packet = (match MqttSerializer::encode(&mut buffer, &disconnect) { Ok(__v) => __v, Err(__e) => return Err(From::from(__e)) });
+        (match self.session.runtime.require_packet_size(packet.len()) { Ok(__v) => __v, Err(__e) => return Err(From::from(__e)) });
+        let result = match write_all(&mut self.io, packet).await {
+            Ok(()) => (match self.io.flush().await { Ok(__v) => Ok(__v), Err(__e) => Err(Error::Transport(__e)) }),
+            Err(err) => Err(err),
+        };
+
+        self.handle_disconnect();
+        result
+    }
+
+async fn disconnect(&mut self) -> (r: Result<(), Error<IoErr>>)
+    requires
+        conn_inv(*old(self)),
+    ensures
+        !old(self).live ==> r is Ok && final(self).io == old(self).io && *final(self).session == *old(self).session && !final(self).live,
+        !too_large(cs(*old(self)).runtime.maximum_packet_size, 2) ==> !final(self).live,
+        conn_inv(*final(self)),
+{
+        proof { axiom_enc_disconnect_success(); }
+
+
+        self.disconnect_with(Disconnect::success()).await
+    }
 }
 
 } // verus!
